@@ -13,6 +13,7 @@ ENGINES = {
     "valsetsim": dict(pkg="./sims/valsetsim", bin="valsetsim.test", test="^TestWorker$"),
     "signersim": dict(pkg="./sims/signersim", bin="signersim.test", test="^TestWorker$"),
     "partsim": dict(pkg="./sims/partsim", bin="partsim.test", test="^TestWorker$"),
+    "execsim": dict(pkg="./sims/execsim", bin="execsim.test", test="^TestWorker$"),
 }
 
 # property: list of parts (engine, quick_runs, share of the thorough time budget); thorough budget in seconds
@@ -27,10 +28,16 @@ PARTS = {
     "C07": [("csim", 280, 1.0)],
     "C08": [("csim", 280, 1.0)],
     "C17": [("partsim", 6000, 1.0)],
+    "C05": [("execsim", 700, 1.0)],
+    "C09": [("execsim", 700, 1.0)],
+    "C06": [("execsim", 160, 1.0)],
     "C03": [("signersim", 1200, 0.5), ("csim", 120, 0.5)],
 }
 
 REAL = {
+    "execsim": ["gemmill Angine (buildState, assembleStateMachine, ConnectApp, RecoverFromCrash, plugin glue)", "gemmill/state ExecBlock/ApplyBlock/Save, gemmill/blockchain store, pbft ConsensusState.ValidateBlock",
+                "chain/app/evm EVMApp (OnExecute, parallel signature verifier with its real goroutines, OnCommit, SaveReceipts, key-value history, Query), transaction pool construction",
+                "eth/core state transition, VM incl. precompiles and the governance precompile, StateDB, trie, rlp"],
     "partsim": ["gemmill/types PartSet/Part (NewPartSetFromData, NewPartSetFromHeader, AddPart, GetReader)", "go-merkle simple tree and proofs", "go-hash"],
     "signersim": ["gemmill/types PrivValidator (SignVote, SignProposal, signBytesHRS, save, LoadPrivValidator)", "go-common WriteFileAtomic on a real file", "go-wire JSON of the signer file"],
     "valsetsim": ["gemmill/types ValidatorSet/Validator (IncrementAccum, Copy, Add/Update/Remove, Proposer, Hash)", "go-wire binary persistence round trip", "go-common heap"],
@@ -39,6 +46,7 @@ REAL = {
              "gemmill/blockchain store", "gemmill/mempool", "go-wire, go-merkle, go-autofile (real files), go-events"],
 }
 STUB = {
+    "execsim": ["LevelDB -> simdisk (process-death durability)", "consensus: the harness builds the blocks and signs the commits with the validator key; replicas execute them through the three calls of the fast-sync executor (SaveBlock, ApplyBlock, Save)", "p2p, RPC, query-cache plugin (not loaded)"],
     "partsim": ["no node: sender and receiver part sets with an adversarial network in between (reorder, duplicate, one mutation per delivered copy)"],
     "signersim": ["no node, no clock, no goroutines: the signer is driven directly; process death = panic out of the fault point before a file operation, everything written before it stays"],
     "valsetsim": ["no node, no clock: replicas are validator-set objects driven through one history by different paths"],
@@ -75,7 +83,10 @@ def run_workers(binp, test, prop, seed, nruns, budget_s, outdir, extra_env=None,
     results = []
     deadline = time.time() + budget_s
     ji = 0
-    env0 = dict(drv.ENV, VERIF_MODE="batch", VERIF_PROP=prop, VERIF_SEED=str(seed), VERIF_KNOWN=",".join(known_keys()),
+    # one P per worker process: goroutines of a simulated node then interleave only at blocking points,
+    # which removes most real-scheduler nondeterminism inside a quiescence window (parallelism comes from
+    # the number of worker processes)
+    env0 = dict(drv.ENV, GOMAXPROCS="1", VERIF_MODE="batch", VERIF_PROP=prop, VERIF_SEED=str(seed), VERIF_KNOWN=",".join(known_keys()),
                 VERIF_REPLAY_DIR=os.path.join(VERIF, "replays"))
     if extra_env:
         env0.update(extra_env)
@@ -116,6 +127,14 @@ def run_workers(binp, test, prop, seed, nruns, budget_s, outdir, extra_env=None,
                 tail = open(st["errp"]).read()[-3000:]
                 full = open(st["errp"]).read()
                 fatal = None
+                if "WaitGroup.Add called from inside and outside synctest bubble" in full:
+                    # artefact of running the signature verifier's WaitGroup (Add racing Wait, benign outside a
+                    # bubble) under synctest's bubble-association check: the run is inconclusive
+                    failures.append(dict(job=st["job"], rc=p.returncode, got=len(got), stderr="synctest WaitGroup association artefact", kind="hang"))
+                    idx = last_run_index(st["errp"])
+                    if idx is not None and idx + 1 < st["job"][1]:
+                        jobs.append((idx + 1, st["job"][1]))
+                    continue
                 if "fatal error:" in full:
                     # the Go runtime aborted the whole process (out of memory, concurrent map write, ...)
                     fl = [l for l in full.splitlines() if l.startswith("fatal error:")][0]
@@ -366,7 +385,7 @@ def check(prop, tier, seed):
 
 
 ASSUME = {}
-LEVEL = {"C07": "fault_enumeration", "C03": "fault_enumeration"}
+LEVEL = {"C07": "fault_enumeration", "C03": "fault_enumeration", "C06": "fault_enumeration"}
 
 
 def setup():
